@@ -275,8 +275,8 @@ def dict_wh(events, eta, cue_vectors, outcome_vectors, *,
                                  'remove_duplicates=True' %
                                  (' '.join(cues), ' '.join(outcomes)))
         elif remove_duplicates:
-            cues = set(cues)
-            outcomes = set(outcomes)
+            cues = list(dict.fromkeys(cues))
+            outcomes = list(dict.fromkeys(outcomes))
         else:
             pass
 
@@ -858,8 +858,8 @@ def _wh_real_to_real(events, eta, cue_vectors, outcome_vectors, *,
                                      'remove_duplicates=True' %
                                      (' '.join(cues), ' '.join(outcomes)))
             elif remove_duplicates:
-                cues = set(cues)
-                outcomes = set(outcomes)
+                cues = list(dict.fromkeys(cues))
+                outcomes = list(dict.fromkeys(outcomes))
             else:
                 pass
 
